@@ -118,12 +118,18 @@ def run(pid, tier, seed, do_replay=None):
             leaves_per_ob.append(ob.meta.get("leaves", {}))
 
     # 3. discharge -----------------------------------------------------------------------------------
+    from qvc import sums, lemmalib
     axioms = list(plan.extra_axioms)
+    ctx.used_lemmas = set(getattr(ctx, "used_lemmas", ()))
+    if sums.uses_sums():
+        axioms += sums.sum_axioms()
+        ctx.used_lemmas |= set(lemmalib.SUM_AXIOM_LEMMAS)
     smt.discharge(all_obs, extra_axioms=axioms, leaves=leaves_per_ob)
 
     # 4. vacuity: hypotheses of (a sample of) obligations must be satisfiable ------------------------
     vac = []
     seen_fn = {}
+    items = []
     for ob in all_obs:
         if ob.kind != "postcondition" and ob.kind != "lemma":
             continue
@@ -131,14 +137,21 @@ def run(pid, tier, seed, do_replay=None):
         if seen_fn.get(key, 0) >= 2:
             continue
         seen_fn[key] = seen_fn.get(key, 0) + 1
-        r = smt.check_sat(ob.hyps, axioms, 5000)
-        r2 = smt.check_sat(ob.hyps + [ob.goal], axioms, 5000) if r != "unsat" else "n/a"
-        vac.append({"obligation": ob.name, "where": ob.where, "hypotheses": r, "hypotheses_and_goal": r2})
+        items.append(ob)
+    res = smt.vacuity([(ob.hyps, ob.goal) for ob in items], full=(tier == "thorough"), extra=axioms)
+    for ob, (r, r2) in zip(items, res):
+        vac.append({"obligation": ob.name, "where": ob.where, "hypotheses": r, "hypotheses_and_goal": r2,
+                    "scope": "all hypotheses" if tier == "thorough" else "quantifier-free hypotheses"})
         if r == "unsat":
             status["errors"].append("vacuous hypotheses for %s" % ob.name)
 
     # 5. Lean lemmas ---------------------------------------------------------------------------------
-    lean_results = lean.run_jobs(plan.lean, ctx) if plan.lean else []
+    used = set()
+    for rep in ctx.reports.values():
+        used |= rep.used_lemmas
+    used |= set(getattr(ctx, "used_lemmas", ()))
+    jobs = list(plan.lean) + [lemmalib.job(n) for n in sorted(used)]
+    lean_results = lean.run_jobs(jobs, ctx) if jobs else []
     for lr in lean_results:
         if not lr["ok"]:
             status["undecided"].append("lean lemma %s failed: %s" % (lr["name"], lr["output"][:400]))
@@ -186,6 +199,20 @@ def run(pid, tier, seed, do_replay=None):
             continue
         if ob.verdict == "undecided":
             status["undecided"].append("%s (%s): %s" % (ob.name, ob.where, getattr(ob, "reason", "")))
+            continue
+        if ob.verdict == "candidate":
+            # not a verdict of the solver: only a native reproduction makes it a violation
+            f = finding_for(pid, ob, findings)
+            if f is not None:
+                status["known"].append((ob, f))
+                continue
+            path, reproduced, out = replay.write_and_run(pid, ob, plan, ctx)
+            if reproduced:
+                n_viol += 1
+                lines.append("VIOLATION property=%s replay=%s obligation=%s" % (pid, path, ob.name))
+            else:
+                status["undecided"].append("%s (%s): %s; candidate not reproduced natively"
+                                           % (ob.name, ob.where, getattr(ob, "reason", "")))
             continue
         # refuted
         f = finding_for(pid, ob, findings)
